@@ -395,6 +395,21 @@ pub fn gen(seed: u64, tier: &str) -> Vec<Value> {
             "codec": if prost {"prost"} else {"raw"}, "bufsz":bufsz,"yield":yld,"limit_enc":-1,"limit_dec":-1,
             "items":items,"cuts":cuts,"body_pend":body_pend,"tail": if role=="server" {"enc"} else {"none"},"extra_polls":3}));
     }
+    // scale: long streams (150 small messages, every 37th preceded by a Pending), so that whatever is counted, grown or reused per
+    // message is exercised far beyond the five messages of the streams above
+    for (j, enc) in ["identity", "gzip", "identity", "zstd", "deflate", "identity"].iter().enumerate() {
+        let mut items = vec![];
+        for m in 0..150usize {
+            if m % 37 == 36 { items.push(json!({"k":"pend"})); }
+            let sz = [0usize, 1, 7, 20, 3, 64][(m + j) % 6];
+            items.push(json!({"k":"msg","b": bytes_json(&rand_bytes(&mut rng, sz, m % 2 == 0))}));
+        }
+        let role = if j % 2 == 0 { "server" } else { "client" };
+        let (bufsz, yld) = if j % 2 == 0 { (64usize, 30usize) } else { (8192, 32768) };
+        let cuts: Vec<usize> = match j % 3 { 0 => vec![7, 1000], 1 => vec![64, 3, 500], _ => vec![4096, 4096] };
+        out.push(json!({"kind":"rt","class":"long_stream","role":role,"enc":enc,"override":false,"codec":"raw","bufsz":bufsz,"yield":yld,
+            "limit_enc":-1,"limit_dec":-1,"items":items,"cuts":cuts,"body_pend":[3, 40],"tail": if role=="server" {"enc"} else {"none"},"extra_polls":3}));
+    }
     out
 }
 
